@@ -205,3 +205,90 @@ Theorem C02_generated_enable_is_model : forall E fuel hs s b s',
   Inv s -> step_op E fuel hs s (OEnable b) = (s', Done) -> GenSchedEq.gen_set_enabled E fuel b s = Some (s', GenRt.Ret).
 Proof. exact GenSchedEq.gen_enable_is_model. Qed.
 Print Assumptions C02_generated_enable_is_model.
+
+(* ---- two-trace form (SchedProj*.v): seen through the projection onto one job the scheduler is a single-job
+   machine; control operations on another job are the identity on it, for histories in which the loop keeps up
+   (every clock advance is followed by a wake-up before the next API operation).  Without that restriction the
+   statement is false, in the model and in the implementation alike (C02_two_trace_unrestricted_refuted): removing
+   the queue head makes _set_timer run the overdue jobs inside the API call. ---- *)
+From EAS Require Import Base Sched SchedInv SchedApi SchedProj SchedProj2 SchedProj3 SchedProj4 SchedProj5 SchedProj6 ProdEarliest2 Compose2.
+From Coq Require Import Sorted.
+(* ---- C02 ---- *)
+Theorem C02_core_runs_a_job_only_while_due :
+  forall E k f, shapes E k f.
+Proof. exact shapes_all. Qed.
+Print Assumptions C02_core_runs_a_job_only_while_due.
+
+Theorem C02_every_operation_seen_by_one_job :
+  forall E fuel hs s o s' r,
+    Inv s -> step_op E fuel hs s o = (s', r) -> r <> NoFuel -> key_ok hs s o ->
+    (forall k, reach1 E k (direct E hs k (proj k s) o) (proj k s')) /\
+    (is_adv o = false -> Calm s -> Calm s') /\
+    (is_wake o = true -> Calm s').
+Proof. exact step_op_view. Qed.
+Print Assumptions C02_every_operation_seen_by_one_job.
+
+Theorem C02_projection_is_single_job_machine :
+  forall E fuel hs k s o s' r,
+    Inv s -> step_op E fuel hs s o = (s', r) -> r <> NoFuel -> key_ok hs s o ->
+    Calm s \/ is_wake o = true \/ is_adv o = true ->
+    exists n, forall g, (n <= g)%nat -> proj k s' = step1 E g hs k (proj k s) o.
+Proof. exact step_op_proj. Qed.
+Print Assumptions C02_projection_is_single_job_machine.
+
+Theorem C02_other_jobs_operations_are_identity :
+  forall E g hs k j p o, addresses j o = true -> k <> j -> step1 E g hs k p o = p.
+Proof. exact step1_other. Qed.
+Print Assumptions C02_other_jobs_operations_are_identity.
+
+Theorem C02_history_projection :
+  forall E fuel hs k ops s s' rs calm,
+    Inv s -> (calm = true -> Calm s) -> hist_ok calm ops = true ->
+    run E fuel hs s ops = (s', rs) -> ~ In NoFuel rs -> ~ In (Raised EKeyError) rs ->
+    exists n, forall g, (n <= g)%nat -> proj k s' = run1 E g hs k (proj k s) ops.
+Proof. exact run_proj. Qed.
+Print Assumptions C02_history_projection.
+
+Theorem C02_history_projection_future_triggers :
+  forall E, (forall j k t, exists v, prod E j k t = Ok v /\ t < v) ->
+  forall fuel hs k ops s s' rs,
+    Inv s -> Calm s -> hist_ok true ops = true ->
+    run E fuel hs s ops = (s', rs) -> ~ In NoFuel rs -> ~ In (Raised EKeyError) rs ->
+    proj k s' = run1 E 1 hs k (proj k s) ops.
+Proof. exact run_proj_ok. Qed.
+Print Assumptions C02_history_projection_future_triggers.
+
+Theorem C02_two_trace_noninterference :
+  forall E fuel1 fuel2 hs t0 en j k ops1 ops2 s1 rs1 s2 rs2,
+    k <> j ->
+    filter (fun o => negb (addresses j o)) ops1 = filter (fun o => negb (addresses j o)) ops2 ->
+    hist_ok true ops1 = true -> hist_ok true ops2 = true ->
+    run E fuel1 hs (init t0 en) ops1 = (s1, rs1) -> run E fuel2 hs (init t0 en) ops2 = (s2, rs2) ->
+    ~ In NoFuel rs1 -> ~ In NoFuel rs2 -> ~ In (Raised EKeyError) rs1 -> ~ In (Raised EKeyError) rs2 ->
+    proj k s1 = proj k s2.
+Proof. exact two_trace_noninterference. Qed.
+Print Assumptions C02_two_trace_noninterference.
+
+Theorem C02_two_trace_same_executions :
+  forall E fuel1 fuel2 hs t0 en j k ops1 ops2 s1 rs1 s2 rs2,
+    k <> j ->
+    filter (fun o => negb (addresses j o)) ops1 = filter (fun o => negb (addresses j o)) ops2 ->
+    hist_ok true ops1 = true -> hist_ok true ops2 = true ->
+    run E fuel1 hs (init t0 en) ops1 = (s1, rs1) -> run E fuel2 hs (init t0 en) ops2 = (s2, rs2) ->
+    ~ In NoFuel rs1 -> ~ In NoFuel rs2 -> ~ In (Raised EKeyError) rs1 -> ~ In (Raised EKeyError) rs2 ->
+    jobs s1 k = jobs s2 k /\ now s1 = now s2 /\ enabled s1 = enabled s2 /\ njobs s1 = njobs s2 /\
+    klog k (log s1) = klog k (log s2) /\ kexecs k (log s1) = kexecs k (log s2) /\
+    count_exec k (log s1) = count_exec k (log s2) /\ count_prod k (log s1) = count_prod k (log s2).
+Proof. exact two_trace_executions. Qed.
+Print Assumptions C02_two_trace_same_executions.
+
+Theorem C02_two_trace_unrestricted_refuted :
+  ~ (forall E fuel hs t0 en j k ops1 ops2 s1 rs1 s2 rs2,
+       k <> j ->
+       filter (fun o => negb (addresses j o)) ops1 = filter (fun o => negb (addresses j o)) ops2 ->
+       run E fuel hs (init t0 en) ops1 = (s1, rs1) -> run E fuel hs (init t0 en) ops2 = (s2, rs2) ->
+       ~ In NoFuel rs1 -> ~ In NoFuel rs2 ->
+       count_exec k (log s1) = count_exec k (log s2)).
+Proof. exact two_trace_unrestricted_refuted. Qed.
+Print Assumptions C02_two_trace_unrestricted_refuted.
+
